@@ -197,8 +197,33 @@ func runCase(c copyx.Case) (res vt.Result, fail *vt.Fail) {
 			return res, vt.Failf("C04/callback-error-not-returned", "callback %s at node %d returned an error but the copy returned %v", c.Faults[0].Op, c.Faults[0].Node, out.Err)
 		}
 		bad := d.Nodes[c.Faults[0].Node].Canon
+		// "ancestor" as the copy sees it: a node already in the destination ends the
+		// traversal (its sub-graph is not visited), so a path through such a node
+		// does not make its upper end wait for anything below it
+		preSet := map[int]bool{}
+		for _, p := range c.Pre {
+			preSet[d.Nodes[p].Canon] = true
+		}
+		reachCut := func(from int) map[int]bool {
+			seen := map[int]bool{from: true}
+			stack := []int{from}
+			for len(stack) > 0 {
+				x := stack[len(stack)-1]
+				stack = stack[:len(stack)-1]
+				if x != from && preSet[x] {
+					continue
+				}
+				for _, ed := range d.Nodes[x].Edges {
+					if !ed.Foreign && !seen[ed.To] {
+						seen[ed.To] = true
+						stack = append(stack, ed.To)
+					}
+				}
+			}
+			return seen
+		}
 		for id, l := range logs {
-			if id != bad && len(l.post) > 0 && d.Reach(id, true)[bad] {
+			if id != bad && len(l.post) > 0 && reachCut(id)[bad] {
 				return res, vt.Failf("C04/ancestor-postcopy-after-callback-error", "node %d, an ancestor of node %d whose %s failed, still got PostCopy", id, bad, c.Faults[0].Op)
 			}
 		}
